@@ -223,6 +223,25 @@ func (g *Gen) intBinop(op token.Token, a, b Val, ot, rt types.Type, st *State) V
 		if st != nil {
 			g.oblige("divzero", "C", "division by zero", st.reach, sNot(sEq(b.T, "0")), true)
 		}
+		if _, isConst := smtConst(b.T); !isConst && g.abstractMod {
+			// symbolic divisor: non-linear for the solvers; abstracted by an uninterpreted remainder with its
+			// range facts (sound over-approximation; the same term is produced in code and in specifications)
+			fn := "int.srem"
+			if isUnsigned(ot) {
+				fn = "int.urem"
+			}
+			g.declareFun(fn, "(Int Int) Int")
+			r.T = fmt.Sprintf("(%s %s %s)", fn, a.T, b.T)
+			if st == nil {
+				return r // specification context (possibly under a quantifier): the bare term
+			}
+			if isUnsigned(ot) {
+				g.assume("true", fmt.Sprintf("(=> (> %[2]s 0) (and (<= 0 %[1]s) (< %[1]s %[2]s) (<= %[1]s %[3]s)))", r.T, b.T, a.T))
+			} else {
+				g.assume("true", fmt.Sprintf("(=> (> %[2]s 0) (and (< (- %[2]s) %[1]s) (< %[1]s %[2]s) (=> (>= %[3]s 0) (and (<= 0 %[1]s) (<= %[1]s %[3]s))) (=> (<= %[3]s 0) (and (<= %[1]s 0) (<= %[3]s %[1]s)))))", r.T, b.T, a.T))
+			}
+			return r
+		}
 		if isUnsigned(ot) {
 			r.T = fmt.Sprintf("(mod %s %s)", a.T, b.T)
 		} else {
